@@ -45,6 +45,41 @@ var (
 
 func pick(r *common.Rand, l []string) string { return l[r.Intn(len(l))] }
 
+// sizes of the text fields: around the powers of two at which buffers and caps usually sit.
+var textSizes = []int{255, 256, 257, 1023, 1024, 1025, 4095, 4096, 4097, 16384, 16385, 65535, 65537, 70000}
+
+// sizedText returns a text of n bytes (n-2..n for the multi-byte flavours).  Flavour 0: ASCII;
+// 1: three-byte characters, so that a byte offset at a power of two falls inside a character;
+// 2: XML-special and two-byte characters mixed in.
+func sizedText(n, flavour int) string {
+	var unit string
+	switch flavour % 3 {
+	case 0:
+		unit = "x"
+	case 1:
+		unit = "\u20ac"
+	default:
+		unit = "a<&>\u00fc'\"]]>"
+	}
+	var b strings.Builder
+	for b.Len()+len(unit) <= n {
+		b.WriteString(unit)
+	}
+	for b.Len() < n && flavour%3 != 1 {
+		b.WriteByte('y')
+	}
+	return b.String()
+}
+
+// pickText: a text from the pool, or (1 in 12) a long one with a size next to a power of two.
+func pickText(r *common.Rand) string {
+	if r.Chance(1, 12) {
+		n := (1 << (8 + r.Intn(5))) + r.Intn(3) - 1
+		return sizedText(n, r.Intn(3))
+	}
+	return pick(r, textPool)
+}
+
 func mustJID(s string) jid.JID {
 	if s == "" {
 		return jid.JID{}
@@ -63,6 +98,9 @@ func (x stz) fields() string {
 
 func genStz(r *common.Rand, kind string) stz {
 	x := stz{kind: kind, space: pick(r, spaces), id: pick(r, idPool), lang: pick(r, langPool)}
+	if r.Chance(1, 24) {
+		x.id = pickText(r)
+	}
 	x.to = mustJID(pick(r, jidPool)).String()
 	x.from = mustJID(pick(r, jidPool)).String()
 	switch kind {
@@ -576,7 +614,7 @@ func genErr(r *common.Rand) serr {
 			continue
 		}
 		seen[l] = true
-		e.texts = append(e.texts, [2]string{l, pick(r, textPool)})
+		e.texts = append(e.texts, [2]string{l, pickText(r)})
 	}
 	sort.Slice(e.texts, func(i, j int) bool { return e.texts[i][0] < e.texts[j][0] })
 	return e
@@ -764,7 +802,7 @@ func genStErr(r *common.Rand) sterr {
 	}
 	n := r.Intn(3)
 	for i := 0; i < n; i++ {
-		e.texts = append(e.texts, [2]string{pick(r, langPool), pick(r, textPool)})
+		e.texts = append(e.texts, [2]string{pick(r, langPool), pickText(r)})
 	}
 	return e
 }
@@ -1005,6 +1043,39 @@ func Run(r *common.Run) error {
 		}
 	}
 	r.Exhaustive = append(r.Exhaustive, "stanza error: every defined condition x every defined type")
+	r.Mark("case sizes")
+	for _, n := range textSizes {
+		if n > r.Pick(20000, 100000) {
+			continue
+		}
+		for fl := 0; fl < 3; fl++ {
+			t := sizedText(n, fl)
+			c.errCase(serr{typ: "modify", cond: "not-acceptable", texts: [][2]string{{"", t}, {"en", "en: " + t}}}, nil, rnd)
+			c.errCase(serr{by: "a@example.net", typ: "wait", cond: "gone", texts: [][2]string{{"de", t}}}, genPayload(rnd), rnd)
+			c.stErrCase(sterr{err: "conflict", texts: [][2]string{{"", t}, {"en", "en: " + t}}}, nil)
+			c.stErrCase(sterr{err: "see-other-host", content: t}, nil)
+			k := []string{"iq", "message", "presence"}[fl]
+			c.stanzaCase(stz{kind: k, id: t, lang: "en", typ: map[string]string{"iq": "set", "message": "chat", "presence": "probe"}[k]},
+				[]xml.Token{xml.StartElement{Name: xml.Name{Space: "urn:app", Local: "x"}}, xml.CharData(t), xml.EndElement{Name: xml.Name{Space: "urn:app", Local: "x"}}}, rnd)
+		}
+	}
+	r.Exhaustive = append(r.Exhaustive, "text sizes next to 2^8, 2^10, 2^12, 2^14 (thorough: 2^16, 70000) x ASCII / three-byte / mixed special characters: error texts, stream error texts and content, ids, payload character data")
+	r.Mark("case content namespaces")
+	for _, k := range []string{"iq", "message", "presence"} {
+		for _, sp := range spaces {
+			for mask := 0; mask < 4; mask++ {
+				x := stz{kind: k, space: sp, id: "n1", typ: map[string]string{"iq": "get", "message": "chat", "presence": "subscribe"}[k]}
+				if mask&1 != 0 {
+					x.to = "b@example.com/r \u2603"
+				}
+				if mask&2 != 0 {
+					x.from = "example.net"
+				}
+				c.stanzaCase(x, genPayload(rnd), rnd)
+			}
+		}
+	}
+	r.Exhaustive = append(r.Exhaustive, "error replies printed and parsed again: kinds x every content namespace of the pool (none, client, server, component accept/connect, foreign) x addresses set or not")
 	r.Mark("case several readers alive")
 	c.multiAll(rnd, r.Pick(1, 8))
 	r.Exhaustive = append(r.Exhaustive, "every function that returns a token reader x k = 2..4 readers made before any is read x every drain order")
@@ -1104,6 +1175,12 @@ func (c *ctxT) replayLine(l string, rnd *common.Rand) {
 			if st, ok := ts[0].(xml.StartElement); ok {
 				c.newTok(f[2], st)
 			}
+		}
+	case f[1] == "uerr" && len(f) == 4:
+		c.uerrLine(dec(f[2]))
+	case f[1] == "wire" && len(f) == 3:
+		if wt, _, err := wireTrip(dec(f[2])); err == nil && len(wt) > 1 {
+			c.uerrLine(wt[1:])
 		}
 	case f[1] == "sdec" && len(f) == 4:
 		c.sdecLine(dec(f[2]))
